@@ -1287,3 +1287,22 @@ def _class_cell_ovr(self, ex, st, cls, attr):
 
 
 MocloModels.class_cell = _class_cell_ovr
+
+
+def m_open_fs(ex, st, fr, args, kwargs):
+    """D-FS: fs.open_fs(url) opens the directory named by the url"""
+    ex.used_models.add("D-FS")
+    o = VObj("FSAbs")
+    return [(st.set(o, "url", args[0]), "ok", o)]
+
+
+_prev_external_fs = MocloModels.external
+
+
+def _external_fs(self, base, attr):
+    if (base, attr) == ("fs", "open_fs"):
+        return VModel("fs.open_fs", m_open_fs)
+    return _prev_external_fs(self, base, attr)
+
+
+MocloModels.external = _external_fs
